@@ -22,6 +22,9 @@ def root(prog):
 def _replay(item):
     prog, exp_w, ty = item
     text = celx.render_ast(prog)
+    if len(text) % 2:      # the suffix of a uint literal may be written u or U
+        import re
+        text = re.sub(r"(?<![\w.\"'])(\d+)u\b", r"\1U", text)
     exp = celx.dec(exp_w)
     bad, n = [], 0
     for r in ("I", "C"):
